@@ -39,3 +39,7 @@ def check(tier, seed, t0):
 
 
 replay = _mk.make_replay(PROP, MON, WEIGHTS, DKW)
+
+
+# (what later rounds of seeded changes added to the workload; part of the evidence's description of the check)
+RULE += "; " + "conflicting uploads under the holder's name with the case of its letters swapped"
